@@ -27,7 +27,7 @@ from sa.explore import explore, witness
 from sa.loader import walk_shallow, walk_expr_shallow
 from sa.resolve import get_resolver
 from sa import rx
-from rules.common import host, host_data, host_sections, read_family, calls_qual
+from rules.common import host, host_data, host_sections, read_family, calls_qual, write_family
 
 READ = "las.LASFile.read"
 TOLERANCE_FUNCS = {"isclose", "allclose", "round", "around", "round_", "rint", "approx", "floor", "ceil", "trunc",
@@ -54,17 +54,38 @@ def _assign_loop(p):
         prov = Provenance(cfg)
         best = None
         for sub in walk_shallow(fr.node):
-            if isinstance(sub, ast.For) and isinstance(sub.iter, ast.Name) and isinstance(sub.target, ast.Name):
+            if isinstance(sub, ast.For) and _elem_name(sub) is not None:
                 nids = cfg.nodes_for(sub)
                 if not nids:
                     continue
-                atoms = prov.atoms(sub.iter, nids[0])
+                atoms = prov.atoms(_iter_source(sub), nids[0])
                 names = {a[1] for a in atoms if a[0] == "callname"}
                 if names & {"read_data_section_iterative_normal_engine", "read_data_section_iterative_numpy_engine"}:
                     best = sub
         if best is not None:
             return fr, cfg, prov, best
     raise AnalysisError("cannot find the loop over the data-section columns in LASFile.read or its helpers")
+
+
+def _iter_source(loop):
+    """the iterated expression, looking through enumerate(...)"""
+    it = loop.iter
+    if isinstance(it, ast.Call) and isinstance(it.func, ast.Name) and it.func.id == "enumerate" and it.args:
+        return it.args[0]
+    return it
+
+
+def _elem_name(loop):
+    """name bound to the element in `for x in G` / `for i, x in enumerate(G)`"""
+    src = _iter_source(loop)
+    if not isinstance(src, ast.Name):
+        return None
+    if src is loop.iter:
+        return loop.target.id if isinstance(loop.target, ast.Name) else None
+    t = loop.target
+    if isinstance(t, ast.Tuple) and len(t.elts) == 2 and isinstance(t.elts[1], ast.Name):
+        return t.elts[1].id
+    return None
 
 
 def _null_var_defs(fr):
@@ -84,11 +105,14 @@ def _null_var_defs(fr):
 def rule_null_guard(ctx):
     p = ctx.p
     fr, cfg, prov, loop = _assign_loop(p)
-    arr = loop.target.id
+    arr = _elem_name(loop)
     cd = ControlDependence(cfg)
     nullvars = _null_var_defs(fr)
     if not nullvars:
-        ctx.bad("NULL.GUARD", READ + "#null-source", fr, fr.node, "no variable takes the ~Well NULL value in LASFile.read")
+        ctx.undecided("NULL.GUARD", READ + "#null-source", fr, fr.node, "no plain variable takes the ~Well NULL value (`x = "
+                      "<items>.NULL.value`) in LASFile.read: the steering values are kept in another form")
+        ctx.undecided("NULL.EXACT", READ + "#null-mask", fr, fr.node, "the ~Well NULL value is not held in a plain variable")
+        return
     # NaN stores: arr[<mask>] = np.nan   /  np.putmask / arr = np.where(...)
     stores = []
     for node in cfg.nodes:
@@ -283,10 +307,8 @@ def rule_null_write(ctx):
     fw = p.func("writer.write")
     site = "writer.write#nan-branch"
     found = False
-    for q, fi in sorted(p.functions.items()):
-        if not q.startswith("writer.write."):
-            continue
-        if isinstance(fi.node, ast.Lambda):
+    for fi in write_family(p):
+        if fi is fw:
             continue
         for sub in walk_shallow(fi.node):
             if isinstance(sub, ast.If) and any(isinstance(c, ast.Call) and isinstance(c.func, ast.Attribute) and c.func.attr == "isnan"
@@ -320,7 +342,7 @@ def rule_null_write(ctx):
 def rule_counter(ctx):
     p = ctx.p
     fr, cfg, prov, loop = _assign_loop(p)
-    arr = loop.target.id
+    arr = _elem_name(loop)
     counter = _counter_var(fr, loop)
     site = READ + "#column-loop"
     problems = []
@@ -331,11 +353,20 @@ def rule_counter(ctx):
     head = cfg.nodes_for(loop)[0]
     incs = [n.id for n in cfg.nodes if n.kind == "stmt" and isinstance(n.ast, ast.AugAssign) and isinstance(n.ast.target, ast.Name)
             and n.ast.target.id == counter and in_block(n.ast, loop.body)]
+    enum = (_iter_source(loop) is not loop.iter and isinstance(loop.target, ast.Tuple) and isinstance(loop.target.elts[0], ast.Name)
+            and loop.target.elts[0].id == counter)
+    if enum:
+        # the counter is the enumerate() index: one step per column by construction; it must start at 0 and not be rebound
+        start = loop.iter.args[1] if len(loop.iter.args) > 1 else next((k.value for k in loop.iter.keywords if k.arg == "start"), None)
+        if start is not None and not (isinstance(start, ast.Constant) and start.value == 0):
+            problems.append("the column index starts at `%s`, not 0" % unparse(start))
+        if incs or any(isinstance(x, ast.Name) and x.id == counter and isinstance(x.ctx, ast.Store) for st in loop.body for x in ast.walk(st)):
+            problems.append("the enumerate() column index is modified inside the loop")
     for i in incs:
         a = cfg.nodes[i].ast
         if not (isinstance(a.op, ast.Add) and isinstance(a.value, ast.Constant) and a.value.value == 1):
             problems.append("the column counter advances by `%s`" % unparse(a))
-    body_entry = [t for (t, lab) in cfg.succ[head] if lab == "body"]
+    body_entry = [t for (t, lab) in cfg.succ[head] if lab == "body"] if not enum else []
     for be in body_entry:
         if be not in incs and cfg.find_path(be, [head], avoid=incs, skip_labels=EXC):
             problems.append("an iteration can finish without advancing the column counter: the next column overwrites "
@@ -349,7 +380,7 @@ def rule_counter(ctx):
              and not in_block(s, loop.body)]
     ok_init = [s for s in inits if isinstance(s.value, ast.Constant) and s.value.value == 0 and not isinstance(s.value.value, bool)
                and (sect_loop is None or in_block(s, sect_loop.body)) and s.lineno < loop.lineno]
-    if not ok_init:
+    if not ok_init and not enum:
         problems.append("the column counter is not reset to 0 for every data section before the columns are assigned")
     # uses: subscript into the curve list with the counter; bound check; append for surplus
     stores = [s for s in ast.walk(loop) if isinstance(s, ast.Assign) and any(
@@ -456,7 +487,7 @@ def _wrap_var(fr):
                 if (isinstance(b, ast.Attribute) and b.attr == "WRAP") or (
                         isinstance(b, ast.Subscript) and isinstance(b.slice, ast.Constant) and b.slice.value == "WRAP"):
                     return sub.targets[0].id
-    raise AnalysisError("cannot find the variable holding ~Version WRAP in LASFile.read")
+    return None
 
 
 def rule_wrap_count(ctx):
@@ -465,6 +496,10 @@ def rule_wrap_count(ctx):
     fr = host_data(p)
     cfg = build_cfg(p, fr)
     wv = _wrap_var(fr)
+    if wv is None:
+        ctx.undecided("DATA.WRAP-COUNT", READ + "#n_columns", fr, fr.node, "the ~Version WRAP value is not held in a plain variable "
+                      "(`x = <items>.WRAP.value`)")
+        return
     # engine calls and the variable passed as n_columns
     calls = []
     for node in cfg.nodes:
@@ -633,18 +668,43 @@ def rule_split(ctx):
     rule_trim(ctx, trim=False)
 
 
-def rule_trim(ctx, trim=True):
-    p = ctx.p
+def _splitter_table(p):
+    """(define_line_splitter, {key: (key node, FuncInfo or None)}, table node) - the {delimiter name: splitter} dict, local to
+    define_line_splitter or a module-level dict it references; None when there is no such table"""
     ff = p.func("reader.define_line_splitter")
-    env = module_env(p, "reader")
-    # the dict of splitters
+
+    def is_table(d):
+        return isinstance(d, ast.Dict) and d.keys and all(isinstance(k, ast.Constant) and isinstance(k.value, str) for k in d.keys) \
+            and all(isinstance(v, (ast.Name, ast.Lambda)) for v in d.values)
     table = None
     for sub in walk_shallow(ff.node):
-        if isinstance(sub, ast.Dict) and sub.keys and all(isinstance(k, ast.Constant) and isinstance(k.value, str) for k in sub.keys) \
-                and all(isinstance(v, (ast.Name, ast.Lambda)) for v in sub.values):
+        if is_table(sub):
             table = sub
     if table is None:
-        raise AnalysisError("cannot find the splitter table in reader.define_line_splitter")
+        used = {x.id for x in ast.walk(ff.node) if isinstance(x, ast.Name)}
+        for nm, vals in ff.module.globals.items():
+            if nm in used and len(vals) == 1 and is_table(vals[0]):
+                table = vals[0]
+    if table is None:
+        return ff, None, None
+    out = {}
+    for k, v in zip(table.keys, table.values):
+        if isinstance(v, ast.Name):
+            fn = ff.nested.get(v.id) or ff.module.functions.get(v.id)
+        else:
+            fn = getattr(v, "_lambda_info", None) or next((f for f in p.functions.values() if f.node is v), None)
+        out[k.value] = (k, v, fn)
+    return ff, out, table
+
+
+def rule_trim(ctx, trim=True):
+    p = ctx.p
+    env = module_env(p, "reader")
+    ff, entries, table = _splitter_table(p)
+    if table is None:
+        ctx.undecided("DATA.SPLIT", "reader.define_line_splitter#vocabulary", ff, ff.node,
+                      "no {delimiter name: splitter function} table found in or referenced from define_line_splitter")
+        return
     keys = [k.value for k in table.keys]
     ctx.check(set(keys) == {"SPACE", "COMMA", "TAB"}, "DATA.SPLIT", "reader.define_line_splitter#vocabulary", ff, table,
               "splitter keys == the DLM vocabulary {SPACE, COMMA, TAB}",
@@ -660,9 +720,10 @@ def rule_trim(ctx, trim=True):
     for k, v in zip(table.keys, table.values):
         key = k.value
         site = "reader.define_line_splitter#%s" % key
-        fn = ff.nested.get(v.id) if isinstance(v, ast.Name) else getattr(v, "_lambda_info", None)
+        fn = entries[key][2]
         if fn is None:
-            raise AnalysisError("splitter %s is not a local function" % key)
+            ctx.undecided("DATA.SPLIT", site, ff, v, "splitter %s is not a function defined in lasio/reader.py" % key)
+            continue
         rets = [s.value for s in walk_shallow(fn.node) if isinstance(s, ast.Return)] if not isinstance(fn.node, ast.Lambda) else [fn.node.body]
         if len(rets) != 1:
             raise AnalysisError("splitter %s has %d returns" % (key, len(rets)))
@@ -847,11 +908,12 @@ def rule_orient(ctx):
 def rule_wrap_tokens(ctx):
     p = ctx.p
     fw = p.func("writer.write")
-    tw = [c for c in walk_shallow(fw.node) if isinstance(c, ast.Call) and "TextWrapper" in ast.unparse(c.func)]
+    fam = write_family(p)
+    tw = [c for f in fam for c in walk_shallow(f.node) if isinstance(c, ast.Call) and "TextWrapper" in ast.unparse(c.func)]
     site = "writer.write#textwrapper"
     if not tw:
         # no TextWrapper: wrapping done otherwise - check there is a wrap call at all
-        wr = [c for c in walk_shallow(fw.node) if isinstance(c, ast.Call) and isinstance(c.func, ast.Attribute) and c.func.attr in ("wrap", "fill")]
+        wr = [c for f in fam for c in walk_shallow(f.node) if isinstance(c, ast.Call) and isinstance(c.func, ast.Attribute) and c.func.attr in ("wrap", "fill")]
         ctx.check(False if not wr else True, "WR.WRAP-TOKENS", site, fw, fw.node, "wrapping present",
                   "writer.write no longer wraps the data lines of a WRAP=YES file")
         ctx.floor("WR.WRAP-TOKENS", 1)
@@ -865,8 +927,8 @@ def rule_wrap_tokens(ctx):
                 problems.append("%s is not False: a value longer than the width (or containing '-') is split into two "
                                 "tokens that read back as two values" % name)
         w = kw.get("width", c.args[0] if c.args else None)
-        dw = [x for x in fw.params() if "data_width" in x]
-        if w is None or (dw and ast.unparse(w) != dw[0]):
+        dw = [x for f in fam for x in f.params() if "data_width" in x]
+        if w is None or (dw and ast.unparse(w) not in dw):
             problems.append("width is `%s`, not the data_width option" % (unparse(w) if w is not None else None))
         for name in ("drop_whitespace", "replace_whitespace", "expand_tabs", "max_lines", "placeholder"):
             if name in kw and name in ("max_lines", "placeholder"):
@@ -996,18 +1058,12 @@ def rule_space_tokens(ctx):
                 local[sub.targets[0].id] = fold(sub.value, env)
             except NotConst:
                 pass
-    table = None
-    for sub in walk_shallow(ff.node):
-        if isinstance(sub, ast.Dict) and sub.keys and all(isinstance(k, ast.Constant) and isinstance(k.value, str) for k in sub.keys):
-            table = sub
-    if table is None:
-        raise AnalysisError("cannot find the splitter table in reader.define_line_splitter")
-    for k, v in zip(table.keys, table.values):
-        if k.value != "SPACE":
-            continue
-        fn = ff.nested.get(v.id) if isinstance(v, ast.Name) else getattr(v, "_lambda_info", None)
-        if fn is None:
-            raise AnalysisError("SPACE splitter is not a local function")
+    ff, entries, table = _splitter_table(p)
+    if table is None or "SPACE" not in entries or entries["SPACE"][2] is None:
+        ctx.undecided("DATA.SPACE-TOKENS", "reader.define_line_splitter#SPACE", ff, ff.node, "no splitter table / SPACE entry found")
+        return
+    for _one in (1,):
+        fn = entries["SPACE"][2]
         rets = [s_.value for s_ in walk_shallow(fn.node) if isinstance(s_, ast.Return)] if not isinstance(fn.node, ast.Lambda) else [fn.node.body]
         trimmed, why, positional = _tokens_trimmed(rets[0], local, env)
         ctx.check(trimmed, "DATA.SPACE-TOKENS", "reader.define_line_splitter#SPACE", fn, rets[0],
